@@ -506,9 +506,12 @@ func ruleCountGuards(c *Ctx, r *Report, rule string, bp *bindParts) {
 	}
 	returnsErr := func(ifs *ast.IfStmt) bool {
 		for _, s := range ifs.Body.List {
-			if rs, ok := s.(*ast.ReturnStmt); ok && len(rs.Results) == 1 {
-				if call, ok := rs.Results[0].(*ast.CallExpr); ok && c.calleeName(call) == "vm.runtimeError" {
-					return true
+			if rs, ok := s.(*ast.ReturnStmt); ok {
+				// the error may travel beside other results (halt, err)
+				for _, res := range rs.Results {
+					if call, ok := res.(*ast.CallExpr); ok && c.calleeName(call) == "vm.runtimeError" {
+						return true
+					}
 				}
 			}
 		}
@@ -755,11 +758,15 @@ func ruleSelectionTable(c *Ctx, r *Report, rule string, bp *bindParts) {
 	defaultErr := false
 	isErrReturn := func(s ast.Stmt) bool {
 		rs, ok := s.(*ast.ReturnStmt)
-		if !ok || len(rs.Results) != 1 {
+		if !ok {
 			return false
 		}
-		call, ok := rs.Results[0].(*ast.CallExpr)
-		return ok && c.calleeName(call) == "vm.runtimeError"
+		for _, res := range rs.Results {
+			if call, ok := res.(*ast.CallExpr); ok && c.calleeName(call) == "vm.runtimeError" {
+				return true
+			}
+		}
+		return false
 	}
 	for _, root := range bp.roots {
 		ast.Inspect(root, func(n ast.Node) bool {
